@@ -207,7 +207,8 @@ def persistOrders (u : UC) (m : MM) : List (List Item) :=
    (m.persistUniqueIdentifiers) ++ (m.persistInstances) ++ (m.persistSchema u)]
 
 /-- RELOAD (all but links), `serialize_database`: for every well-formed, closed metamodel (class names distinct after
-    upper-casing, core attribute types, identifier names distinct per class, association ends naming classes of the model
+    upper-casing, attribute names of a class distinct after upper-casing — `define_class` accepts no other class —,
+    core attribute types, identifier names distinct per class, association ends naming classes of the model
     with key lists of equal length and existing target keys, rows as long as the attribute list) the written text is
     accepted, builds, and the built metamodel — as the writers see it — is `m.reloaded`: the same classes (in sorted
     order) with the same attributes (type names upper-cased), the same identifiers, the same rows in order with equal
@@ -449,7 +450,7 @@ def mEx : MM :=
    [⟨"R1".toList, ⟨false, true, "A".toList, ["Id".toList], []⟩, ⟨false, true, "A".toList, ["Id".toList], "x".toList⟩⟩]⟩
 
 example : mEx.Closed UC.ascii := by
-  refine ⟨by decide, by decide, by decide, ?_, by decide⟩
+  refine ⟨by decide, by decide, by decide, ?_, by decide, by decide⟩
   intro a ha
   simp only [mEx, List.mem_singleton] at ha; subst ha
   exact ⟨⟨_, List.mem_singleton.mpr rfl, rfl⟩, rfl, _, List.mem_singleton.mpr rfl, rfl, by decide⟩
